@@ -171,7 +171,10 @@ def main(tier, seed):
     if not build["extract_errors"]: obligations.append(("extract:locators", True, "all source locators matched"))
     mod_ok = not any(m.startswith("NunVerif") or m.startswith("Driver") for m in build.get("failed_modules", []))
     axioms = {}
-    if mod_ok and THEOREMS: axioms, _ = core.lean_axioms(LEAN_MODULE, THEOREMS)
+    if mod_ok and THEOREMS:
+        axioms, _ = core.lean_axioms(LEAN_MODULE, THEOREMS)
+        ok_rc, det = core.lean_recheck(LEAN_MODULE)
+        obligations.append((f"leanchecker {LEAN_MODULE}", ok_rc, det))
     for t in THEOREMS:
         ax = axioms.get(t)
         obligations.append((t, bool(mod_ok and ax is not None and set(ax) <= core.ALLOWED_AXIOMS), f"axioms {ax}" if mod_ok else "module does not compile"))
